@@ -73,6 +73,10 @@ def corpus_item(corpus_seed, i):
     if rng.random() < 0.02 and version != '1.0':
         form = rng.choice(["p:t%d ( 'a' )", "p:t%d(: c :)('a')", "( p:t%d ( 'a' ) , p:t%d ( 'b' ) )", "/ r / p:t%d", "p:t%d # 1"])
         return {'kind': 'regctor', 'v': version, 'text': form.replace('%d', str(i)), 'i': i}
+    if rng.random() < 0.02 and version in ('3.0', '3.1'):
+        form = rng.choice(["function ( $a as p:%s ) { 1 }", "1 instance of p:%s", "function ( $a as p:%s ? ) as p:%s * { $a }",
+                           "'5' cast as p:%s", "( ) treat as p:%s *"])
+        return {'kind': 'schematype', 'v': version, 'form': form, 'i': i}
     if rng.random() < 0.12:
         return {'kind': 'fixed', 'v': '3.1', 'tokens': rng.choice(FIXED).split(' '), 'layout_seed': rng.randrange(1 << 30), 'i': i}
     if rng.random() < 0.06:
@@ -173,6 +177,30 @@ def process_item(item, history=None):
                     '%r parses as %r on an instance that registered the constructor after a parse, as %r on a fresh one' % (
                         text, used[:3], rec[:3]), ['needs-history'])
         return {'i': item['i'], 'text': text, 'rec': rec[:3], 'shared': used[:3]}, viol
+    if item['kind'] == 'schematype':
+        # a type name of the in-scope schema: what one parser decides about it must not depend on what a parser with
+        # another static context (no schema) decided about the same text before, nor the other way round
+        import xmlschema
+        from xmlschema.xpath import XMLSchemaProxy
+        ta, tb = 'pct%da' % item['i'], 'pct%db' % item['i']
+        ns = P.NAMESPACES['p']
+        xsd = ('<xs:schema xmlns:xs="http://www.w3.org/2001/XMLSchema" targetNamespace="%s">' % ns + ''.join(
+            '<xs:simpleType name="%s"><xs:restriction base="xs:integer"><xs:maxInclusive value="100"/></xs:restriction>'
+            '</xs:simpleType>' % t for t in (ta, tb)) + '<xs:element name="r" type="xs:string"/></xs:schema>')
+        proxy = XMLSchemaProxy(xmlschema.XMLSchema(xsd))
+        cls = type(parser)
+        text_a, text_b = item['form'].replace('%s', ta), item['form'].replace('%s', tb)
+        plain_first = [outcome_of(cls(namespaces=dict(P.NAMESPACES)), text_a, root)[:3],
+                       outcome_of(cls(namespaces=dict(P.NAMESPACES), schema=proxy), text_a, root)[:3]]
+        schema_first = [outcome_of(cls(namespaces=dict(P.NAMESPACES), schema=proxy), text_b, root)[:3],
+                        outcome_of(cls(namespaces=dict(P.NAMESPACES)), text_b, root)[:3]]
+        schema_first.reverse()
+        norm = [[str(x).replace(tb, ta) for x in o] for o in schema_first]
+        if norm != [[str(x) for x in o] for o in plain_first]:
+            violate('HISTORY', 'type-name-decision-depends-on-other-parsers:' + v,
+                    '%r: a parser without schema then one with the schema give %r; in the other order (type %s) they give %r' % (
+                        text_a, plain_first, tb, schema_first), ['needs-history'])
+        return {'i': item['i'], 'text': text_a, 'rec': [[str(x) for x in o] for o in plain_first]}, viol
     if item['kind'] == 'bad':
         rec = outcome_of(parser, item['text'], root)
         used = outcome_of(shared_parser(v, compat), item['text'], root)
